@@ -139,4 +139,66 @@ def wstep (max : Nat) (s : WState) : WOp → WState × WOut
 def wrun (max : Nat) (ops : List WOp) (s : WState := {}) : WState :=
   ops.foldl (fun s o => (wstep max s o).1) s
 
+/-! ### what can end the wait of a blocked `Write`
+
+`wstep` knows two ways out of the `select` in which an over-limit `Write` waits: `Close` (the write
+fails) and the buffered-amount-low notification (the write goes on).  The shape of that wait is a
+parameter here, so that the bound can be stated for *any* set of wake-up sources: a source other than
+those two (a timer, a `default` case, some other channel) is an event of the environment, `fire`. -/
+
+inductive Wake
+  | closed   -- `<-s.closed`
+  | low      -- `<-s.write`, fed by `OnBufferedAmountLow` only
+  | timer    -- anything that becomes ready by the passing of time
+  | other    -- any other channel, or a `default` case
+deriving DecidableEq, Repr
+
+inductive Exit
+  | fail      -- `Write` returns an error without handing the message to the stream
+  | proceed   -- the writer leaves the `select` and goes on
+deriving DecidableEq, Repr
+
+structure WaitShape where
+  /-- the wait sits in a loop that evaluates `BufferedAmount()+len > max` again after a wake-up -/
+  loops : Bool
+  cases : List (Wake × Exit)
+deriving DecidableEq, Repr
+
+/-- the wait of `SCTPConn.Write` as it is in the source (an `if`, two cases) -/
+def sourceShape : WaitShape := { loops := false, cases := [(.closed, .fail), (.low, .proceed)] }
+
+def WaitShape.exitOf (sh : WaitShape) (w : Wake) : Option Exit :=
+  (sh.cases.find? (fun c => c.1 = w)).map (·.2)
+
+/-- a wake-up source becomes ready while a write may be waiting.  `closed` and `low` are driven by
+`close` and `drain` (see `wstep`); every other source is free to fire at any moment. -/
+def fire (sh : WaitShape) (max : Nat) (s : WState) (w : Wake) : WState × WOut :=
+  match s.blocked with
+  | none => (s, .none)
+  | some n =>
+    if w = .closed ∨ w = .low then (s, .none)
+    else match sh.exitOf w with
+      | none => (s, .none)                                    -- the `select` does not listen to it
+      | some .fail => ({ s with blocked := none }, .closedErr)
+      | some .proceed =>
+        if sh.loops = true ∧ s.buffered + n > max then (s, .none)   -- looks again and keeps waiting
+        else ({ s with buffered := s.buffered + n, blocked := none }, .woke n)
+
+inductive GOp
+  | op (o : WOp)
+  | fire (w : Wake)
+deriving Repr
+
+def gstep (sh : WaitShape) (max : Nat) (s : WState) : GOp → WState × WOut
+  | .op o => wstep max s o
+  | .fire w => fire sh max s w
+
+def grun (sh : WaitShape) (max : Nat) (ops : List GOp) (s : WState := {}) : WState :=
+  ops.foldl (fun s o => (gstep sh max s o).1) s
+
+/-- every case that lets the writer go on is the buffered-amount-low notification, or the bound is
+looked at again -/
+def WaitShape.safe (sh : WaitShape) : Bool :=
+  sh.cases.all fun c => c.1 = .closed || c.1 = .low || c.2 = .fail || sh.loops
+
 end CJ.SctpConn
